@@ -523,6 +523,58 @@ def cached_slot_types_agree(ctx):
                   "the cgroup identity is the 64-bit inode number", "CgroupContext::id() caches the inode number as '%s'" % slot)
 
 
+
+def refresh_archives_one_tick(ctx):
+    """CgroupContext::refresh archives exactly the ending tick's three temporal inputs (verbatim, nothing of the old archive), then clears
+    the cache, then reports validity: the rates and the moving average the ranking and the detectors use are deltas over ONE tick."""
+    P, cg = ctx.prog, ctx.cg
+    # ------------------------------------------------ refresh
+    rf = ctx.fn1("Oomd::CgroupContext::refresh")
+    aw = field_writes(rf, "archive_")
+    clear = [i for i, nn in enumerate(rf.nodes) if nn["k"] in ("bin", "call") and nn.get("op") == "=" and rf.pos_of(i) is not None and
+             rf.text(nn.get("l", nn.get("recv", -1))).replace("->", "") in ("*thisdata_", "*this->data_".replace("->", ""))]
+    ev = {w: [("set", "archived")] for w in aw}
+    ev.update({c: [("set", "cleared")] for c in clear})
+    fr = Flow(P, rf, events=ev, cg=cg)
+    ok = len(aw) == 1 and len(clear) == 1
+    if ok:
+        ok = fr.must(clear[0], "archived") and not fr.may(aw[0], "cleared")
+    Xrf = Expander(P, rf)
+    for r in returns(rf):
+        t = Xrf(rf.nodes[r]["val"]) if "val" in rf.nodes[r] else ""
+        ok = ok and fr.must(r, "cleared") and t == "Oomd::Fs::isCgroupValid(this->cgroup_dir_)"
+    ctx.check(ok, "refresh:archive-then-clear-then-validate", "order", rf.loc(), "refresh archives, then clears the per-tick cache, then reports validity of the held fd",
+              "refresh does not (archive, clear cache, return isCgroupValid(cgroup_dir_)) in that order")
+    for w in aw:
+        t = rf.text(write_rhs(rf, w)).replace("->->", "->")
+        want = ["this->data_->average_usage", "this->data_->io_cost_cumulative", "this->data_->pg_scan_cumulative"]
+        ctx.check(all(x in t for x in want) and t.index(want[0]) < t.index(want[1]) < t.index(want[2]), "refresh:archives-the-three-temporal-inputs", "value-shape", rf.loc(w),
+                  "archive = {average_usage, io_cost_cumulative, pg_scan_cumulative} of the ending tick", "archive is built from " + t[:160])
+        # one-tick memory: the new archive is a function of the ending tick's cache only (not of the old archive)
+        old_reads = [x for x in rf.walk(write_rhs(rf, w)) if rf.nodes[x]["k"] == "member" and rf.nodes[x].get("qname") == "Oomd::CgroupContext::archive_"]
+        ctx.check(not old_reads, "refresh:archive-has-one-tick-memory", "field-read", rf.loc(old_reads[0]) if old_reads else rf.loc(w),
+                  "the new archive does not depend on the old one: rates are deltas over exactly one tick",
+                  "the new archive is computed from the previous archive: a value that was not sampled in the ending tick keeps an older baseline, "
+                  "so io-cost / pgscan rates can span several ticks")
+        il = rf.nodes[rf.strip(write_rhs(rf, w))]
+        if il["k"] == "initlist":
+            got = [rf.text(k).replace("->->", "->") for k in il.get("kids", [])]
+            ctx.check(got == want, "refresh:archive-fields-copied-verbatim", "value-shape", rf.loc(w), "each archive field is the cache slot of the same name, unmodified",
+                      "archive fields are " + str(got)[:200])
+    # designated initialiser order matches the struct
+    ac = P.classes.get("Oomd::CgroupContext::CgroupArchivedData", {})
+    names = [x["name"] for x in ac.get("fields", [])]
+    ctx.check(names == ["average_usage", "io_cost_cumulative", "pg_scan_cumulative"], "archive-struct-fields", "type", "oomd/CgroupContext.h", "archive holds the three temporal inputs", "archive fields are " + str(names))
+    # nobody else writes archive_ / clears data_
+    for f in P.fns.values():
+        if f is rf or f.kind == "ctor":
+            continue
+        for w in field_writes(f, "archive_"):
+            q = f.nodes[f.strip(f.nodes[w].get("l", f.nodes[w].get("recv", -1)))].get("qname", "")
+            if q == "Oomd::CgroupContext::archive_":
+                ctx.violation("archive-writer:" + short(f), "who-may-write", f.loc(w), "archive_ written outside refresh()")
+    ctx.ok("archive-writers", "who-may-write", rf.loc(), "archive_ is written only by refresh()")
+
 def run(ctx):
     cached_slot_types_agree(ctx)
     memory_protection_scheme(ctx)
@@ -578,52 +630,8 @@ def run(ctx):
     # prefer/avoid xattrs parse exactly: the same reader rule as C03 (prefer probed before avoid in both namespaces)
     from .C03 import kill_preference_reader
     kill_preference_reader(ctx)
-    # ------------------------------------------------ refresh
+    refresh_archives_one_tick(ctx)
     rf = ctx.fn1("Oomd::CgroupContext::refresh")
-    aw = field_writes(rf, "archive_")
-    clear = [i for i, nn in enumerate(rf.nodes) if nn["k"] in ("bin", "call") and nn.get("op") == "=" and rf.pos_of(i) is not None and
-             rf.text(nn.get("l", nn.get("recv", -1))).replace("->", "") in ("*thisdata_", "*this->data_".replace("->", ""))]
-    ev = {w: [("set", "archived")] for w in aw}
-    ev.update({c: [("set", "cleared")] for c in clear})
-    fr = Flow(P, rf, events=ev, cg=cg)
-    ok = len(aw) == 1 and len(clear) == 1
-    if ok:
-        ok = fr.must(clear[0], "archived") and not fr.may(aw[0], "cleared")
-    Xrf = Expander(P, rf)
-    for r in returns(rf):
-        t = Xrf(rf.nodes[r]["val"]) if "val" in rf.nodes[r] else ""
-        ok = ok and fr.must(r, "cleared") and t == "Oomd::Fs::isCgroupValid(this->cgroup_dir_)"
-    ctx.check(ok, "refresh:archive-then-clear-then-validate", "order", rf.loc(), "refresh archives, then clears the per-tick cache, then reports validity of the held fd",
-              "refresh does not (archive, clear cache, return isCgroupValid(cgroup_dir_)) in that order")
-    for w in aw:
-        t = rf.text(write_rhs(rf, w)).replace("->->", "->")
-        want = ["this->data_->average_usage", "this->data_->io_cost_cumulative", "this->data_->pg_scan_cumulative"]
-        ctx.check(all(x in t for x in want) and t.index(want[0]) < t.index(want[1]) < t.index(want[2]), "refresh:archives-the-three-temporal-inputs", "value-shape", rf.loc(w),
-                  "archive = {average_usage, io_cost_cumulative, pg_scan_cumulative} of the ending tick", "archive is built from " + t[:160])
-        # one-tick memory: the new archive is a function of the ending tick's cache only (not of the old archive)
-        old_reads = [x for x in rf.walk(write_rhs(rf, w)) if rf.nodes[x]["k"] == "member" and rf.nodes[x].get("qname") == "Oomd::CgroupContext::archive_"]
-        ctx.check(not old_reads, "refresh:archive-has-one-tick-memory", "field-read", rf.loc(old_reads[0]) if old_reads else rf.loc(w),
-                  "the new archive does not depend on the old one: rates are deltas over exactly one tick",
-                  "the new archive is computed from the previous archive: a value that was not sampled in the ending tick keeps an older baseline, "
-                  "so io-cost / pgscan rates can span several ticks")
-        il = rf.nodes[rf.strip(write_rhs(rf, w))]
-        if il["k"] == "initlist":
-            got = [rf.text(k).replace("->->", "->") for k in il.get("kids", [])]
-            ctx.check(got == want, "refresh:archive-fields-copied-verbatim", "value-shape", rf.loc(w), "each archive field is the cache slot of the same name, unmodified",
-                      "archive fields are " + str(got)[:200])
-    # designated initialiser order matches the struct
-    ac = P.classes.get("Oomd::CgroupContext::CgroupArchivedData", {})
-    names = [x["name"] for x in ac.get("fields", [])]
-    ctx.check(names == ["average_usage", "io_cost_cumulative", "pg_scan_cumulative"], "archive-struct-fields", "type", "oomd/CgroupContext.h", "archive holds the three temporal inputs", "archive fields are " + str(names))
-    # nobody else writes archive_ / clears data_
-    for f in P.fns.values():
-        if f is rf or f.kind == "ctor":
-            continue
-        for w in field_writes(f, "archive_"):
-            q = f.nodes[f.strip(f.nodes[w].get("l", f.nodes[w].get("recv", -1)))].get("qname", "")
-            if q == "Oomd::CgroupContext::archive_":
-                ctx.violation("archive-writer:" + short(f), "who-may-write", f.loc(w), "archive_ written outside refresh()")
-    ctx.ok("archive-writers", "who-may-write", rf.loc(), "archive_ is written only by refresh()")
 
     # ------------------------------------------------ temporal getters
     rate_definitions(ctx)
